@@ -821,6 +821,7 @@ handle_null_request(int tun_fd, int dns_fd, struct dnsfd *dns_fds, struct query 
 		int version = 0;
 
 		read = unpack_data(unpacked, sizeof(unpacked), &(in[1]), domain_len - 1, &base32_ops);
+		VERIF_TAIL(unpacked, read, sizeof(unpacked));
 		/* Version greeting, compare and send ack/nak */
 		if (read > 4) {
 			/* Received V + 32bits version */
@@ -897,6 +898,7 @@ handle_null_request(int tun_fd, int dns_fd, struct dnsfd *dns_fds, struct query 
 		return;
 	} else if (in[0] == 'L' || in[0] == 'l') {
 		read = unpack_data(unpacked, sizeof(unpacked), &(in[1]), domain_len - 1, &base32_ops);
+		VERIF_TAIL(unpacked, read, sizeof(unpacked));
 		if (read < 17) {
 			write_dns(dns_fd, q, "BADLEN", 6, 'T');
 			return;
@@ -1184,6 +1186,7 @@ handle_null_request(int tun_fd, int dns_fd, struct dnsfd *dns_fds, struct query 
 		int max_frag_size;
 
 		read = unpack_data(unpacked, sizeof(unpacked), &(in[1]), domain_len - 1, &base32_ops);
+		VERIF_TAIL(unpacked, read, sizeof(unpacked));
 
 		if (read < 3) {
 			write_dns(dns_fd, q, "BADLEN", 6, 'T');
@@ -1226,6 +1229,7 @@ handle_null_request(int tun_fd, int dns_fd, struct dnsfd *dns_fds, struct query 
 			return;
 
 		read = unpack_data(unpacked, sizeof(unpacked), &(in[1]), domain_len - 1, &base32_ops);
+		VERIF_TAIL(unpacked, read, sizeof(unpacked));
 		if (read < 4)
 			return;
 
@@ -1484,6 +1488,7 @@ handle_null_request(int tun_fd, int dns_fd, struct dnsfd *dns_fds, struct query 
 			/* decode with this user's encoding */
 			read = unpack_data(unpacked, sizeof(unpacked), &(in[5]), domain_len - 5,
 					   users[userid].encoder);
+			VERIF_TAIL(unpacked, read, sizeof(unpacked));
 
 			/* copy to packet buffer, update length */
 			read = MIN(read, sizeof(users[userid].inpacket.data) - users[userid].inpacket.offset);
